@@ -51,6 +51,7 @@ type SecOp struct {
 	Len    int       `json:"len,omitempty"`
 	Rel    int64     `json:"rel,omitempty"` // writeat: section-relative offset; seek: offset
 	Whence int       `json:"whence,omitempty"`
+	Pat    int       `json:"pat,omitempty"` // payload content: 0 attributable pseudo-random, 1 all 0x00, 2 all 0xff
 	Fault  *SecFault `json:"fault,omitempty"`
 }
 
@@ -305,6 +306,9 @@ func (Section) Generate(seed uint64, tier string) engine.Plan {
 			default:
 				op = SecOp{Op: "size"}
 			}
+			if (op.Op == "write" || op.Op == "writeat") && r.Chance(1, 8) {
+				op.Pat = r.PickInt(1, 2)
+			}
 			if (op.Op == "write" || op.Op == "writeat") && op.Len > 0 && faultsLeft > 0 && r.Chance(1, 3) {
 				faultsLeft--
 				f := &SecFault{Kind: "fail"}
@@ -522,6 +526,11 @@ func (Section) Execute(pl engine.Plan, c *engine.RunCtx) *engine.Failure {
 					}
 					buf := payloadBuf[:op.Len]
 					engine.Fill(buf, p.ContentSeed, step)
+					if op.Pat == 1 || op.Pat == 2 {
+						for i := range buf {
+							buf[i] = byte(0xff * (op.Pat - 1))
+						}
+					}
 					var n int
 					var err error
 					var at, mm int64 // where the model offers bytes, and how many
